@@ -545,7 +545,8 @@ func (x *Exec) builtin(st *State, fi int, b *ssa.Builtin, c *ssa.CallCommon, arg
 			k(st, Value{T: App("strlen", "Int", a.T), Typ: types.Typ[types.Int]})
 		case "Ref":
 			if mt, ok := underMap(c.Args[0].Type()); ok {
-				x.guardCheck(st, "MC", false, false, pos)
+				_, _, cn := x.mapNames(mt)
+				x.guardCheck(st, cn, false, false, pos)
 				l := x.mapLen(st, st.heap, st.epoch, a.T, mt)
 				st.assume(Le(IntLit(0), l))
 				k(st, Value{T: l, Typ: types.Typ[types.Int]})
@@ -670,7 +671,7 @@ func (x *Exec) chanRecv(st *State, fi int, ch Value, in *ssa.UnOp) Value {
 		return Value{Tup: []Value{v, ok}, Typ: t}
 	}
 	v := x.freshValue(st, "recv", t)
-	x.ghostAt(st, fi, "recv", "", &v)
+	x.ghostAtX(st, fi, "recv", "", &v, map[string]Value{"ch": ch})
 	return v
 }
 
